@@ -1,6 +1,6 @@
 From RsdnsModel Require Import Base Cursor Names Labels Header Tracker RData Reader Client.
-From RsdnsModel.Spec Require Import NameText.
-From RsdnsModel.Proofs Require Import NameOrder ClientProofs.
+From RsdnsModel.Spec Require Import NameText WireName.
+From RsdnsModel.Proofs Require Import NameOrder ClientProofs MessageRT AcceptComplete.
 From RsdnsModel.Properties Require Import C12.
 Open Scope N_scope.
 Check (C12_accept_sound : forall std id qname qtype qclass d fl,
@@ -24,4 +24,17 @@ Check (C12_accepted_question_is_asked : forall std id qname qtype qclass d fl,
   exists r1 hd r2 n, rd_header d (mkReader (c_new d) tr_default false) = (r1, Ok (OHeader hd)) /\
     rd_question d true false r1 = (r2, Ok (OQuestion n qtype qclass)) /\
     valid_text n = true /\ fold_case n = fold_case (canon_text qname)).
-Print Assumptions C12_accept_sound. Print Assumptions C12_rejects_silently. Print Assumptions C12_first_match. Print Assumptions C12_nothing_accepted. Print Assumptions C12_accepted_question_is_asked.
+Check (C12_genuine_response_accepted : forall std d q e h id qname,
+  lenN d <= 65535 -> 12 <= lenN d ->
+  read_header d (c_new d) = (c_set_pos (c_new d) 12, Ok h) ->
+  h_qd h = 1 -> h_an h <= 65535 -> h_ns h <= 65535 -> h_ar h <= 65535 -> h_id h = id ->
+  question_stands d 12 q e ->
+  name_eq_str (join_labels (map snd (sq_labels q))) qname = true ->
+  accept_datagram std id qname (sq_type q) (sq_class q) d = Ok (Some (h_flags h))).
+Check (C12_filter_example : accept_datagram true 4660 [x61] 1 1 example_msg = Ok (Some 33152) /\
+  accept_datagram false 4660 [x41; x2e] 1 1 example_msg = Ok (Some 33152) /\
+  accept_datagram true 4661 [x61] 1 1 example_msg = Ok None /\
+  accept_datagram true 4660 [x62] 1 1 example_msg = Ok None /\
+  accept_datagram true 4660 [x61] 28 1 example_msg = Ok None /\
+  accept_datagram false 4660 [x61] 1 3 example_msg = Ok None).
+Print Assumptions C12_accept_sound. Print Assumptions C12_rejects_silently. Print Assumptions C12_first_match. Print Assumptions C12_nothing_accepted. Print Assumptions C12_accepted_question_is_asked. Print Assumptions C12_genuine_response_accepted. Print Assumptions C12_filter_example.
